@@ -206,6 +206,9 @@ def worker(args):
     try:
         S = srv.Server(basedir, exe, "srv%d" % windex, overrides={"http": {"timeout": 3}, "security": {"content_length_limit": 64, "multipart_form_data_limit": 128}})
         sent_tokens = {}
+        # well-formed requests with every element count up to 140 (tables grow at such counts): a request that hangs or kills
+        # the loop here takes every other connection with it
+        c01.count_sweep(S, rnd, windex, 140, cnt, res, prefix="c02", kinds=("headers", "query"))
         for ci in range(ncases):
             if res["viol"]:
                 break
